@@ -4,11 +4,12 @@ that concurrent builders do not edit the shared registry - merge at will).
     /venv/bin/python -m selftest.mutations_c02 [id ...] [--tier quick]    # runs ./check C02 on each mutant
 
 Result lines:  MUT <id> C02 exit=<rc> caught|MISSED|MACHINERY <first signature>
-All 17 were caught by the quick tier (notes/C02.md); the last two need the multi-render histories.
+All 18 were caught by the quick tier (notes/C02.md); two need the multi-render histories, the last one the\nboundary pixel style.\n\nThe UNCHANGED tree disagrees with the documented threshold rule where round(alpha * 255) rounds DOWN\n(signatures block:*:threshold-rounded-down:threshold and block:*:threshold-tie-rounded-down:threshold,\nsee notes/C02.md); a mutant counts as caught only if the check reports a signature OTHER than these\n(same convention as selftest/mutations_c05.py for F10), whether or not they are registered as known.
 """
 
 from __future__ import annotations
 
+import fnmatch
 import os
 import shutil
 import subprocess
@@ -16,6 +17,8 @@ import sys
 from pathlib import Path
 
 VERIF = Path(__file__).resolve().parent.parent
+
+BASELINE_SIGNATURES = ["block:*:threshold-rounded-down:threshold", "block:*:threshold-tie-rounded-down:threshold"]
 
 MUTATIONS = {
     # DESIGN
@@ -120,6 +123,13 @@ MUTATIONS = {
         old='        frame_img = img if frame else None\n        if self._is_animated:\n            img.seek(self._seek_position)\n        if not size:\n',
         new='        frame_img = img if frame else None\n        if self._is_animated and self._seek_position:\n            img.seek(self._seek_position)\n        if not size:\n',
     ),
+    # seeded/X9-s2 (needs a threshold whose product with 255 has a fractional part >= .5 and a pixel whose
+    # alpha is floor(threshold * 255): the "boundary" pixel style)
+    'c02-threshold-int-instead-of-round': dict(
+        file='image/common.py', props=["C02"],
+        old='                        alpha = round(alpha * 255)\n',
+        new='                        alpha = int(alpha * 255)  # 8-bit alpha level\n',
+    ),
 }
 
 
@@ -146,12 +156,13 @@ def run(mid: str, tier: str = "quick") -> int:
                            stdout=subprocess.PIPE, stderr=subprocess.STDOUT, text=True, timeout=3600)
     finally:
         shutil.rmtree(root, ignore_errors=True)
-    sig = [l.strip() for l in p.stdout.splitlines() if l.strip().startswith("signature:")]
-    status = {1: "caught", 2: "MACHINERY"}.get(p.returncode, "MISSED")
-    print(f"MUT {mid} C02 exit={p.returncode} {status} {sig[0] if sig else ''}", flush=True)
+    sig = [l.strip()[len("signature: "):] for l in p.stdout.splitlines() if l.strip().startswith("signature:")]
+    own = [x for x in sig if not any(fnmatch.fnmatchcase(x, pat) for pat in BASELINE_SIGNATURES)]
+    status = "MACHINERY" if p.returncode == 2 else ("caught" if p.returncode == 1 and own else "MISSED")
+    print(f"MUT {mid} C02 exit={p.returncode} {status} {own[0] if own else ''}", flush=True)
     if p.returncode == 2:
         print("\n".join(p.stdout.splitlines()[-15:]))
-    return p.returncode
+    return 1 if status == "caught" else (2 if status == "MACHINERY" else 0)
 
 
 def main() -> None:
